@@ -55,17 +55,12 @@ Definition facc_add (code : N) (s : fstate) (v : float) : fstate :=
   | 1%N => mkFS (if negb (fhas s) || PrimFloat.ltb (f1 s) v || PrimFloat.is_nan (f1 s) then v else f1 s) 0 0 0 0 true []
   | 2%N => mkFS (if negb (fhas s) || PrimFloat.ltb v (f1 s) || PrimFloat.is_nan (f1 s) then v else f1 s) 0 0 0 0 true []
   | 3%N => mkFS (f1 s + 1) 0 0 0 0 true []
-  | 4%N => mkFS (f1 s + 1) (f2 s + v) 0 0 0 true []                 (* count, sum *)
+  | 4%N => let '(count, sum) := gacc_avg_step float fops (f1 s, f2 s) v in mkFS count sum 0 0 0 true []
   | 5%N => mkFS 0 0 0 0 0 true []
   | 8%N => mkFS (f1 s) 0 0 0 0 true (fpts s ++ [v])                (* quantile: argument, points *)
   | _ =>                                                          (* count, mean, cMean, aux, cAux *)
-      let count := f1 s + 1 in
-      if PrimFloat.eqb count 1 then mkFS count v (f3 s) (f4 s) (f5 s) true []
-      else
-        let delta := v - (f2 s + f3 s) in
-        let '(mean, cmean) := kahan (delta / count) (f2 s) (f3 s) in
-        let '(aux, caux) := kahan (delta * (v - (mean + cmean))) (f4 s) (f5 s) in
-        mkFS count mean cmean aux caux true []
+      let '(count, mean, cmean, aux, caux) := gacc_welford_step float fops (f1 s, f2 s, f3 s, f4 s, f5 s) v in
+      mkFS count mean cmean aux caux true []
   end.
 
 (* ValueFunc *)
